@@ -190,8 +190,10 @@ async fn matrix(st: &mut Stats, pki: &Pki, alg_name: &str) {
                 Err(e) => st.inconclusive.push(format!("c17 probe: {e}")),
             }
             for name_matches in [true, false] {
-                for skip in [false, true] {
-                    for cli in ["none", "trusted", "other"] {
+                // (skip-verify is the innermost dimension and goes off, on, off: consecutive connections then differ in
+                // nothing but that flag, in both orders - a client that remembers its previous configuration shows here)
+                for cli in ["none", "trusted", "other"] {
+                    for skip in [false, true, false] {
                         st.evaluations += 1;
                         let name = if name_matches { "localhost" } else { "other.example" };
                         let (cert, key) = if cli == "none" { (None, None) } else { (Some(pki.p(&format!("cli-{cli}.pem"))), Some(pki.p(&format!("cli-{cli}.key")))) };
@@ -545,6 +547,20 @@ async fn reload_by_signal(st: &mut Stats, pki: &Pki, cycles: usize, client_ca: b
         // a connection established under the current identity stays usable
         let tcp = TcpStream::connect(addr).await.expect("tcp");
         let est = tls_connect(tcp, "localhost", Some(&good.0), Some(&good.1), Some(cur_ca.as_str()), false).await.ok();
+        if cycle == 1 {
+            // a reload request that cannot be served (the key file is missing, as in the middle of a renewal): the identity
+            // stays as it is - and the next, servable request must still be honoured
+            std::fs::remove_file(&live_key).ok();
+            let sent = std::process::Command::new("kill").arg("-USR1").arg(std::process::id().to_string()).status().map(|s| s.success()).unwrap_or(false);
+            tokio::time::sleep(std::time::Duration::from_millis(400)).await;
+            let still = reaches(addr, "localhost", Some(&good.0), Some(&good.1), Some(cur_ca.as_str()), false).await;
+            if sent {
+                st.target("failed_reload_requests", 1);
+                if still != Ok(true) {
+                    st.violation(Violation { signature: "signal-reload|failed-reload-disturbed-identity".into(), detail: format!("{tag}: a reload request with a missing key file left the server unusable under its current identity ({still:?})"), replay: json!({"kind": "c17-signal-reload", "cycle": cycle, "client_ca": client_ca}) });
+                }
+            }
+        }
         install(other);
         let ok = std::process::Command::new("kill").arg("-USR1").arg(std::process::id().to_string()).status().map(|s| s.success()).unwrap_or(false);
         if !ok {
